@@ -40,7 +40,9 @@ pub const F_RAMP: usize = 26;
 pub const F_THREAD_HOP: usize = 27;
 pub const F_ABORTED_FEED: usize = 28;
 pub const F_MARATHON: usize = 29;
-pub const N_FAULTS: usize = 30;
+pub const F_UNWINDING: usize = 30;
+pub const F_LIAR: usize = 31;
+pub const N_FAULTS: usize = 32;
 pub const FAULT_NAMES: [&str; N_FAULTS] = [
     "drop",
     "dup",
@@ -72,6 +74,8 @@ pub const FAULT_NAMES: [&str; N_FAULTS] = [
     "thread-hop",
     "aborted-feed",
     "marathon",
+    "call-from-unwinding-destructor",
+    "self-contradicting-message",
 ];
 
 /// Per-property weights. One world, shifted towards the property's subject.
@@ -124,8 +128,14 @@ pub fn add_hops(t: &mut Trace, r: &mut Rng, p: &Preset, stats: &mut Probes) {
         if inside_soak {
             continue;
         }
-        t.events.insert(pos, Ev::Hop { n });
-        any = true;
+        // a quarter of the windows are "called from a destructor while the thread is unwinding"
+        if r.chance(1, 4) {
+            t.events.insert(pos, Ev::Unwinding { n });
+            stats.faults_fired[F_UNWINDING] += 1;
+        } else {
+            t.events.insert(pos, Ev::Hop { n });
+            any = true;
+        }
     }
     if any {
         stats.faults_fired[F_THREAD_HOP] += 1;
@@ -202,6 +212,52 @@ pub fn add_marathon(t: &mut Trace, r: &mut Rng, p: &Preset, stats: &mut Probes) 
     }
     t.events.insert(pos, Ev::Bulk { n, cycle });
     stats.faults_fired[F_MARATHON] += 1;
+}
+
+/// Self-contradicting message objects (byte getters and `to_structured()` disagree), from lane 1:
+/// one run in 40 gets one or two, each followed - at once or a few events later - by a reset, which
+/// is the only thing judged about them.
+pub fn add_liars(t: &mut Trace, r: &mut Rng, stats: &mut Probes) {
+    if r.below(40) != 0 || t.events.is_empty() {
+        return;
+    }
+    let count = 1 + r.below(2);
+    for _ in 0..count {
+        let pos = r.below(t.events.len() as u64 + 1) as usize;
+        let inside_soak = t.events.iter().enumerate().any(|(j, e)| match e {
+            Ev::Repeat { k, .. } => pos + (*k as usize) + 4 > j && pos <= j,
+            _ => false,
+        });
+        let ch = t.events[..pos]
+            .iter()
+            .rev()
+            .find_map(|e| match e {
+                Ev::EncCc14 { ch, .. } | Ev::EncPn { ch, .. } | Ev::Poll { ch } => Some(*ch),
+                Ev::Feed { b, .. } if b[0] >= 0x80 && b[0] < 0xF0 => Some(b[0] & 0x0F),
+                _ => None,
+            })
+            .unwrap_or(r.below(16) as u8);
+        let mut side = |r: &mut Rng, ch: u8| -> [u8; 3] {
+            match r.below(8) {
+                0..=2 => [0xB0 | ch, *r.pick(&[6u8, 38, 96, 97, 98, 99, 100, 101]), r.u7()],
+                3 | 4 => [0xB0 | ch, r.below(64) as u8, r.u7()],
+                5 => [0xB0 | ch, 64 + r.below(64) as u8, r.u7()],
+                6 => [0x80 | ((r.below(7) as u8) << 4) | ch, r.u7(), r.u7()],
+                _ => [0xF8, 0, 0],
+            }
+        };
+        let raw = side(r, ch);
+        let other_ch = if r.chance(1, 4) { r.below(16) as u8 } else { ch };
+        let st = side(r, other_ch);
+        let gap = r.below(4) as usize;
+        if inside_soak || raw == st {
+            continue;
+        }
+        t.events.insert(pos, Ev::Liar { raw, st });
+        let rpos = (pos + 1 + gap).min(t.events.len());
+        t.events.insert(rpos, Ev::Reset);
+        stats.faults_fired[F_LIAR] += 1;
+    }
 }
 
 /// What the process environment looks like to library code: decided per run from lane 1 (after
